@@ -147,6 +147,13 @@ func (e *Engine) VerifyFunc(fn *ssa.Function, opts VerifyOpts) (res *FuncResult)
 	entrySnap := func() { f.entry = &State{heap: copyHeap(st.heap), locals: map[*ssa.Alloc]*Term{}, alloc: st.alloc, base: st.base} }
 	// preconditions
 	if ct != nil {
+		for _, rq := range ct.Assumes {
+			se := f.specEnv(st, st)
+			se.positive = true
+			se.site = "pre"
+			ctx.assume(se.evalBool(rq.Expr))
+			ctx.trusted["standing IR assumption of "+ct.Key+": "+rq.Text] = true
+		}
 		for _, rq := range ct.Requires {
 			se := f.specEnv(st, st)
 			se.positive = true
